@@ -28,10 +28,17 @@ macro_rules! lanes {
     ($name:ident, $tier:expr, $func:expr, $what:expr,
      vars [$($v:ident : $lo:expr, $hi:expr),*], tol $rt:expr, $ft:expr,
      |$X:ident| $body:block) => {
+        lanes!($name, $tier, $func, $what, vars [$($v : $lo, $hi),*], requires {}, tol $rt, $ft, |$X| $body);
+    };
+    // `requires`: a precondition of the contract, stated on the scalar variables before the two instantiations run
+    ($name:ident, $tier:expr, $func:expr, $what:expr,
+     vars [$($v:ident : $lo:expr, $hi:expr),*], requires $pre:block, tol $rt:expr, $ft:expr,
+     |$X:ident| $body:block) => {
         program!($name, "C17", $tier, s, $func,
             concat!("lane == scalar: ", $what, " computed at the vector instantiation (mask = Boolean term, select = ite) equals the scalar instantiation on every scalar path, for all inputs of the domain (hues modulo 360)"),
         {
             $( let $v = T::var(stringify!($v), $lo, $hi); )*
+            $pre
             let so: Vec<(&'static str, T)> = { #[allow(dead_code)] type $X = T; $body };
             let vo: Vec<(&'static str, <T as Lane>::W)> = { #[allow(dead_code)] type $X = <T as Lane>::W; $( let $v: $X = Lane::lift($v); )* $body };
             let tol = T::tol($rt, $ft);
@@ -185,7 +192,17 @@ lanes!(c17_differences, "quick", "DeltaE, HyAb, EuclideanDistance [color_differe
     vec![("delta_e", p.delta_e(q)), ("hybrid", p.hybrid_distance(q)), ("dist2", p.distance_squared(q))]
 });
 lanes!(c17_ciede2000, "thorough", "Ciede2000::difference, ImprovedCiede2000 [color_difference.rs]", "CIEDE2000 on Lab",
-    vars [l1: 0.0, 100.0, a1: -128.0, 127.0, b1: -128.0, 127.0, l2: 0.0, 100.0, a2: -128.0, 127.0, b2: -128.0, 127.0], tol 1e-6, 1e-2, |X| {
+    vars [l1: 0.0, 100.0, a1: -128.0, 127.0, b1: -128.0, 127.0, l2: 0.0, 100.0, a2: -128.0, 127.0, b2: -128.0, 127.0],
+    requires {
+        // pairs whose hues are (within rounding) exactly opposite are excluded, as the property does for CIEDE2000: the formula
+        // jumps there, and the scalar libm atan2 and the dependency's SIMD atan2 may land on different sides of |dh'| = 180.
+        // a' = a (1 + G) scales both a* by the same factor, so opposition is cross == 0 with a negative dot product.
+        let cross = a1 * b2 - a2 * b1;
+        let dot = a1 * a2 + b1 * b2;
+        let near = T::p_and(T::p_le(&cross, &T::k(1e-3)), T::p_le(&T::k(-1e-3), &cross));
+        T::assume(T::p_not(T::p_and(near, T::p_lt(&dot, &T::k(0.0)))));
+    },
+    tol 1e-6, 1e-2, |X| {
     let p = Lab::<D65, X>::new(l1, a1, b1);
     let q = Lab::<D65, X>::new(l2, a2, b2);
     vec![("ciede2000", p.difference(q)), ("improved", p.improved_difference(q))]
@@ -197,6 +214,9 @@ pub fn all() -> Vec<crate::Prog> {
         c17_srgb_transfer::prog(), c17_rec709_transfer::prog(), c17_xyz_lab::prog(), c17_xyz_yxy::prog(), c17_lab_lch::prog(), c17_oklab::prog(),
         c17_rgb_xyz::prog(), c17_blend_overlay::prog(), c17_blend_dodge::prog(), c17_blend_burn::prog(), c17_blend_hard_light::prog(),
         c17_blend_soft_light::prog(), c17_blend_darken::prog(), c17_blend_difference::prog(), c17_compose_and_premultiply::prog(),
-        c17_operators::prog(), c17_clamp::prog(), c17_hue_normal_forms::prog(), c17_differences::prog(), c17_ciede2000::prog(),
+        c17_operators::prog(), c17_clamp::prog(), c17_hue_normal_forms::prog(), c17_differences::prog(),
     ]
+    // not registered: c17_ciede2000 (thorough). Under load its VCs time out and the witness replay then compared the scalar libm atan2 with
+    // the dependency's SIMD atan2 at pairs of exactly opposite hues (|dh'| = 180, where the formula jumps): a false alarm on the unchanged
+    // tree. With those pairs excluded (`requires`) most of its 156 VCs are still not discharged within the budget, so it is not claimed.
 }
